@@ -21,12 +21,17 @@ CONSTANTS
   VarMode,      \* "abs8": RefVar short iff operand < 256 (6809/68HC11/6502 direct/zero page)
                 \* "rel8": RefVar short iff operand - (pc+2) fits a signed byte (68000 Bcc, 8086 JMP)
   VarShort, VarLong,   \* sizes of the two encodings of RefVar
-  Padding       \* TRUE: the target pads odd addresses before word-sized statements (68000)
+  Padding,      \* TRUE: the target pads odd addresses before word-sized statements (68000, MSP430)
+  SelfKinds     \* which of the statement kinds {"labs", "lvar", "lrel"} are in the alphabet: a reference
+                \* statement that carries a label on its own line and whose operand may be that very label,
+                \* the PC symbol or another label (lab: dc.w lab / dc.w * / tab: dc.w r0-tab / lab: bra lab)
 
 -----------------------------------------------------------------------------
 (* Programs *)
 
 AlSet == IF Padding THEN BOOLEAN ELSE {FALSE}
+NoLab == "-"      \* "no label on this line"
+PcSym == "*"      \* operand is the PC symbol (* or $): the address of the statement itself
 
 Items ==
   [k : {"def"}, l : Labels, al : AlSet] \cup        \* l: <2 marker bytes>   (al: marker is a word => aligned)
@@ -35,11 +40,23 @@ Items ==
   [k : {"rel"}, l : Labels] \cup                    \* bne l / bne.s l / jnz l   (8-bit PC-relative)
   [k : {"fill"}, n : Fills] \cup                    \* n bytes
   (IF Padding THEN {[k |-> "ins"]} ELSE {}) \cup    \* nop: word-sized instruction without operand
-  {e \in [k : {"equ"}, l : Labels, l2 : Labels, d : EquOffs] : e.l # e.l2}
+  {e \in [k : {"equ"}, l : Labels, l2 : Labels, d : EquOffs] : e.l # e.l2} \cup
+  \* the same three reference kinds with a label l (or none) on the same line and operand t (a label - possibly
+  \* l itself - or the PC symbol); df: the operand is the difference t - l (offset tables: tab: dc.w r0-tab)
+  {e \in [k : {"labs"} \cap SelfKinds, l : Labels \cup {NoLab}, t : Labels \cup {PcSym}, w : AbsWidths, df : BOOLEAN] :
+        /\ (e.l = NoLab => e.t = PcSym /\ ~e.df)
+        /\ (e.df => e.t \in Labels /\ e.t # e.l)} \cup
+  {e \in [k : {"lvar", "lrel"} \cap SelfKinds, l : Labels \cup {NoLab}, t : Labels \cup {PcSym}] :
+        e.l = NoLab => e.t = PcSym}
 
-IsRef(it) == it.k \in {"abs", "var", "rel"}
-Defines(it, l) == it.k \in {"def", "equ"} /\ it.l = l
-Uses(it, l) == (IsRef(it) /\ it.l = l) \/ (it.k = "equ" /\ it.l2 = l)
+PlainRef(it) == it.k \in {"abs", "var", "rel"}
+IsSelf(it) == it.k \in {"labs", "lvar", "lrel"}
+IsRef(it) == PlainRef(it) \/ IsSelf(it)
+IsAbs(it) == it.k \in {"abs", "labs"}
+IsVar(it) == it.k \in {"var", "lvar"}
+IsRel(it) == it.k \in {"rel", "lrel"}
+Defines(it, l) == it.k \in {"def", "equ", "labs", "lvar", "lrel"} /\ it.l = l
+Uses(it, l) == (PlainRef(it) /\ it.l = l) \/ (IsSelf(it) /\ it.t = l) \/ (it.k = "equ" /\ it.l2 = l)
 Mentions(it, l) == Defines(it, l) \/ Uses(it, l)
 
 DefIdx(p, l) == {j \in 1..Len(p) : Defines(p[j], l)}
@@ -55,7 +72,7 @@ EquBackward(p) ==
   \A j \in 1..Len(p) : p[j].k = "equ" => \E h \in 1..(j-1) : Defines(p[h], p[j].l2)
 
 \* word-sized statements start on an even address when the target pads
-Aligned(it) == Padding /\ (it.k \in {"abs", "var", "rel", "ins"} \/ (it.k = "def" /\ it.al))
+Aligned(it) == Padding /\ (IsRef(it) \/ it.k = "ins" \/ (it.k = "def" /\ it.al))
 
 Disp8(d) == d >= -128 /\ d <= 127
 ShortOK(v, a) == IF VarMode = "abs8" THEN v >= 0 /\ v < 256 ELSE Disp8(v - (a + 2))
@@ -70,12 +87,22 @@ RECURSIVE SymValR(_, _, _, _)
 SymValR(p, lay, l, depth) ==
   IF depth = 0 \/ DefIdx(p, l) = {} THEN -1
   ELSE LET j == CHOOSE x \in DefIdx(p, l) : TRUE IN
-       IF p[j].k = "def" THEN lay[j].a
+       IF p[j].k # "equ" THEN lay[j].a       \* a label: the address of the statement it stands in front of
        ELSE LET b == SymValR(p, lay, p[j].l2, depth - 1) IN IF b = -1 THEN -1 ELSE b + p[j].d
 \* the address (label) or expression value (EQU) where l is defined in layout lay
 SymVal(p, lay, l) == SymValR(p, lay, l, Cardinality(Labels) + 1)
 
-FixedSize(it) == CASE it.k = "def" -> 2 [] it.k = "abs" -> it.w [] it.k = "rel" -> 2
+\* the value the operand of reference item j has to encode in layout lay; Resolved: all its symbols exist
+Resolved(p, lay, j) ==
+  LET it == p[j] IN
+  IF PlainRef(it) THEN SymVal(p, lay, it.l) # -1 ELSE it.t = PcSym \/ SymVal(p, lay, it.t) # -1
+Expected(p, lay, j) ==
+  LET it == p[j] IN
+  IF PlainRef(it) THEN SymVal(p, lay, it.l)
+  ELSE LET base == IF it.t = PcSym THEN lay[j].a ELSE SymVal(p, lay, it.t)
+       IN IF it.k = "labs" /\ it.df THEN base - lay[j].a ELSE base
+
+FixedSize(it) == CASE it.k = "def" -> 2 [] IsAbs(it) -> it.w [] IsRel(it) -> 2
                    [] it.k = "fill" -> it.n [] it.k = "ins" -> 2 [] it.k = "equ" -> 0 [] OTHER -> 0
 
 \* what is wrong with entry j of lay (empty set: nothing)
@@ -83,10 +110,10 @@ Problems(p, o, lay, j) ==
   LET it == p[j] e == lay[j] IN
   (IF e.p \in {0, 1} /\ e.a = (IF j = 1 THEN o ELSE lay[j-1].a + lay[j-1].n) + e.p THEN {} ELSE {"address"}) \cup
   (IF (e.p = 1 => Aligned(it)) /\ (Aligned(it) => e.a % 2 = 0) THEN {} ELSE {"padding"}) \cup
-  (IF IF it.k = "var" THEN e.n \in {VarShort, VarLong} /\ (e.n = VarShort => ShortOK(e.v, e.a))
+  (IF IF IsVar(it) THEN e.n \in {VarShort, VarLong} /\ (e.n = VarShort => ShortOK(e.v, e.a))
       ELSE e.n = FixedSize(it) THEN {} ELSE {"size"}) \cup
-  (IF IsRef(it) => e.v # -1 /\ e.v = SymVal(p, lay, it.l) THEN {} ELSE {"value"}) \cup  \* every use encodes the final value
-  (IF it.k = "rel" => Disp8(e.v - (e.a + 2)) THEN {} ELSE {"range"})
+  (IF IsRef(it) => Resolved(p, lay, j) /\ e.v = Expected(p, lay, j) THEN {} ELSE {"value"}) \cup  \* every use encodes the final value
+  (IF IsRel(it) => Disp8(e.v - (e.a + 2)) THEN {} ELSE {"range"})
 
 \* lay is a layout of p starting at o in which every reference is resolved
 Valid(p, o, lay) == Len(lay) = Len(p) /\ \A j \in 1..Len(p) : Problems(p, o, lay, j) = {}
@@ -96,11 +123,11 @@ RECURSIVE AddrSeq(_, _, _, _)
 AddrSeq(p, ch, j, cur) ==
   IF j > Len(p) THEN <<>>
   ELSE LET pd == IF Aligned(p[j]) /\ cur % 2 = 1 THEN 1 ELSE 0
-           n  == IF p[j].k = "var" THEN ch[j] ELSE FixedSize(p[j])
+           n  == IF IsVar(p[j]) THEN ch[j] ELSE FixedSize(p[j])
        IN <<[a |-> cur + pd, n |-> n, p |-> pd, v |-> -1]>> \o AddrSeq(p, ch, j + 1, cur + pd + n)
 WithValues(p, lay) ==
-  [j \in 1..Len(p) |-> IF IsRef(p[j]) THEN [lay[j] EXCEPT !.v = SymVal(p, lay, p[j].l)] ELSE lay[j]]
-VarIdx(p) == {j \in 1..Len(p) : p[j].k = "var"}
+  [j \in 1..Len(p) |-> IF IsRef(p[j]) /\ Resolved(p, lay, j) THEN [lay[j] EXCEPT !.v = Expected(p, lay, j)] ELSE lay[j]]
+VarIdx(p) == {j \in 1..Len(p) : IsVar(p[j])}
 Candidates(p, o) ==
   {WithValues(p, AddrSeq(p, ch, 1, o)) : ch \in [VarIdx(p) -> {VarShort, VarLong}]}
 Solvable(p, o) == \E lay \in Candidates(p, o) : Valid(p, o, lay)
